@@ -1,6 +1,7 @@
 """C19 -- command-line contract: validation, precedence and option equivalences."""
 import contextlib
 import io
+import logging
 import os
 import random
 import shutil
@@ -55,11 +56,16 @@ def cases(ctx):
 
 
 # ---- running main() ---------------------------------------------------------------------
-def run_main(nc, argv, cwd):
-    """Return (outcome, detail, watch): outcome in {"ok", "error"}"""
+def run_main(nc, argv, cwd, env=None):
+    """Return (outcome, detail, watch): outcome in {"ok", "error"}.  env: variables present in the process
+    environment during the run (nothing in the contract reads the environment: they must not matter)."""
     old = os.getcwd()
     err = io.StringIO()
     outcome, detail = "ok", None
+    saved = {k: os.environ.get(k) for k in (env or {})}
+    os.environ.update(env or {})
+    root = logging.getLogger()
+    root_level = root.level
     with fsmon.Watch() as w:
         try:
             os.chdir(cwd)
@@ -72,6 +78,12 @@ def run_main(nc, argv, cwd):
             outcome, detail = "error", "%s: %s" % (type(e).__name__, e)
         finally:
             os.chdir(old)
+            root.setLevel(root_level)
+            for k, v in saved.items():
+                if v is None:
+                    os.environ.pop(k, None)
+                else:
+                    os.environ[k] = v
     return outcome, detail, w
 
 
@@ -106,7 +118,7 @@ def tree_bytes(root):
 
 # ---- option model ------------------------------------------------------------------------
 LONG = {"a": "anonymize-ips", "p": "anonymize-passwords", "u": "undo", "s": "salt", "w": "sensitive-words", "n": "as-numbers",
-        "r": "reserved-words", "d": "dump-ip-map", "i": "input", "o": "output"}
+        "r": "reserved-words", "d": "dump-ip-map", "i": "input", "o": "output", "l": "log-level"}
 FLAGS = {"anonymize-ips", "anonymize-passwords", "undo", "preserve-private-addresses"}
 SHORT = {v: k for k, v in LONG.items()}
 
@@ -197,8 +209,13 @@ def build(rng, options, places, wd, tag, conflicts=None, all_opts=()):
             parts.insert(min(at, len(parts)), merged)
     argv = [t for p in parts for t in p]
     if cfg:
-        path = os.path.join(wd, "cfg_%s.ini" % tag)
+        # the config file is not always in the current directory; relative paths in it still mean what they mean on the command line
+        cdir = wd if rng.random() < 0.6 else os.path.join(wd, rng.choice(["settings", "etc/netconan"]))
+        os.makedirs(cdir, exist_ok=True)
+        path = os.path.join(cdir, "cfg_%s.ini" % tag)
         write_cfg(path, cfg)
+        if rng.random() < 0.3:
+            path = os.path.relpath(path, wd)
         argv = [rng.choice(["-c", "--config"]), path] + argv
     return argv
 
@@ -266,7 +283,7 @@ def _reject(ctx, case, nc, wd):
         places["input" if kind == "empty-input" else "output"] = rng.choice(["cli", "cli", "cfg"])
     argv = build(rng, dict(items), places, wd, "r", all_opts=long_options(nc))
     before = fsmon.snapshot(wd)
-    outcome, detail, w = run_main(nc, argv, wd)
+    outcome, detail, w = run_main(nc, argv, wd, env=load.HOSTILE_ENV if rng.random() < 0.5 else None)
     after = fsmon.snapshot(wd)
     ctx.ev()
     ctx.count("rejection_vectors")
@@ -327,10 +344,12 @@ def gen_accept(rng, src, dst, dump):
             o["dump-ip-map"] = dump
     if not any(k in o for k in ("anonymize-ips", "anonymize-passwords", "sensitive-words", "as-numbers", "undo")):
         o["anonymize-passwords"] = True
+    if rng.random() < 0.4:
+        o["log-level"] = rng.choice(["DEBUG", "DEBUG", "INFO", "WARNING", "ERROR", "CRITICAL"])  # how much is logged never changes what is written
     return o
 
 
-CONFLICT_VALUES = {"salt": "otherSalt", "sensitive-words": "nothinglisted", "as-numbers": "1", "reserved-words": "zzz",
+CONFLICT_VALUES = {"log-level": "CRITICAL", "salt": "otherSalt", "sensitive-words": "nothinglisted", "as-numbers": "1", "reserved-words": "zzz",
                    "preserve-host-bits": "3", "preserve-prefixes": "99.0.0.0/8", "preserve-addresses": "99.9.9.9"}
 
 
@@ -382,7 +401,7 @@ def _equiv(ctx, case, nc, wd):
             rng.shuffle(items)
             argv = build(rng, dict(items), places, wd, name, conflicts=CONFLICT_VALUES if name == "conflict" else None,
                          all_opts=long_options(nc))
-            outcome, detail, w = run_main(nc, argv, wd)
+            outcome, detail, w = run_main(nc, argv, wd, env=load.HOSTILE_ENV if name != "cli" and rng.random() < 0.6 else None)
             for kind, p in w.writes():
                 if fsmon_inside(p, src):
                     ctx.violation(dict(case, argv=argv), "write-under-input-root", "%s %s during %r" % (kind, p, argv))
